@@ -195,6 +195,26 @@ impl World {
         if verifiable != ev.proof.is_some() {
           self.fail("proof presence does not match the request".into());
         }
+        // the answer is the evaluation under the key the public key commits to for this tag: k*output = point with
+        // k*G = base + tag entry; and an honest proof verifies
+        if valid {
+          if let (Some(tk), Some(pv), Some(o), Some(q)) = (
+            tagged_key(&self.servers[i], md),
+            combined_pv(&pk_bytes(&self.servers[i]), md),
+            CompressedRistretto::from_slice(&outb).ok().and_then(|c| c.decompress()),
+            CompressedRistretto::from_slice(p).ok().and_then(|c| c.decompress()),
+          ) {
+            if tk * RISTRETTO_BASEPOINT_POINT == pv && tk * o != q {
+              self.fail(format!("the answer of instance {} for tag {} is not the evaluation under the key its public key commits to for that tag", i, md));
+            }
+          }
+          if ev.proof.is_some() {
+            let pk = self.servers[i].get_public_key();
+            if guarded(|| Client::verify(&pk, &pt, &ev, md)) != Some(true) {
+              self.fail(format!("an honest verifiable evaluation of instance {} for tag {} does not verify under its public key", i, md));
+            }
+          }
+        }
         match self.memo[i].get(&(md, p.to_vec())) {
           Some(prev) if *prev != outb => self.fail(format!("the answer of instance {} for tag {} changed", i, md)),
           _ => {}
